@@ -162,13 +162,13 @@ def run(run, replay=None):
             if r == "reject":
                 stats["rejected"] += 1
                 if all(c in alpha for c in a):
-                    fails.append(("reject", hi, {"alphabet": "".join(alpha)[:30], "key": a, "result": "rejected a key spelled in the alphabet"}))
+                    fails.append(("reject", hi, {"alphabet": "".join(alpha), "alphabet_size": len(alpha), "key": a, "result": "rejected a key spelled in the alphabet"}))
             elif r.startswith("ok"):
                 stats["xcheck_calls"] += len(r[4:].split())
                 if not all(c in alpha for c in a):
-                    fails.append(("accept", hi, {"alphabet": "".join(alpha)[:30], "key": a, "result": "accepted a key outside the alphabet"}))
+                    fails.append(("accept", hi, {"alphabet": "".join(alpha), "alphabet_size": len(alpha), "key": a, "result": "accepted a key outside the alphabet"}))
             else:
-                fails.append(("panic", hi, {"alphabet": "".join(alpha)[:30], "key": a, "result": r}))
+                fails.append(("panic", hi, {"alphabet": "".join(alpha), "alphabet_size": len(alpha), "key": a, "result": r}))
         elif op == "trt":
             stats["roundtrips"] += 1
             seen_rt.add(hi)
@@ -179,7 +179,7 @@ def run(run, replay=None):
             stats["max_slots"] = max(stats["max_slots"], len(slots))
             why = structure_ok(slots, free, len(alpha) + 1)
             if why:
-                fails.append(("structure", hi, {"alphabet": "".join(alpha)[:30], "invariant": why}))
+                fails.append(("structure", hi, {"alphabet": "".join(alpha), "alphabet_size": len(alpha), "invariant": why}))
             prev = last_dump.get(hi)
             if prev is not None:
                 pslots = prev
@@ -193,7 +193,7 @@ def run(run, replay=None):
             should = a in inserted
             if present != should:
                 hist_keys = [x for o, x in ops if o == "tins"]
-                fails.append(("exact-set", hi, {"alphabet": "".join(alpha)[:30], "inserted_in_order": hist_keys[:60], "lookup": a,
+                fails.append(("exact-set", hi, {"alphabet": "".join(alpha), "alphabet_size": len(alpha), "inserted_in_order": hist_keys[:60], "lookup": a,
                                                 "reported_present": present, "was_inserted": should,
                                                 "roundtrip_in_history": hi in seen_rt}))
     seen = set()
